@@ -7,6 +7,7 @@ if ! git diff --quiet; then echo "REPO DIRTY"; exit 9; fi
 if ! git apply "$patch"; then echo "PATCH DOES NOT APPLY"; exit 9; fi
 export GOFLAGS=-mod=mod GOPROXY=off GOSUMDB=off GOTOOLCHAIN=local
 ( go build ./... ) || echo "MUTANT DOES NOT BUILD"
+mkdir -p /tmp/trymut_verif && cp /verif/known_findings.json /tmp/trymut_verif/
 for p in "$@"; do
   out=$(cd /verif && bin/nplint -prop "$p" -tier quick -verif /tmp/trymut_verif 2>&1); code=$?
   echo "== $p exit=$code"
